@@ -309,6 +309,17 @@ def part_transport(C):
                        f'{case["names"]} with page size 1 -> {str(nat)[:400]}', case, not nat.get('as_specified', False), role='transport')
 
 
+def long_token_transport(chk):
+    """tokens near the maximum length, followed on a live server with the token pasted into the query (next to a limit parameter)"""
+    for n in (300, 335, 343):
+        names = [chr(ord('a') + i) * n for i in range(4)]
+        c = {'op': 'token_transport', 'names': names, 'limit': 1}
+        r = replay([c])[0]
+        chk.replayed += 1
+        if not r.get('as_specified'):
+            chk.counterexample(f'following tokens of {len((r.get("tokens") or [""])[0])} characters (selectors of {n} bytes, within the documented bound): {str(r)[:300]}', c, True, role='transport:long')
+
+
 def part_tokens_in(C):
     chk, ex, F_ser, F_de, F_which, F_new, F_limit, MAXLEN, n, sel, fails, base = unpack(C)
     # ---- (c) arbitrary incoming tokens
@@ -545,6 +556,7 @@ def witnesses(chk):
         else: good = not r.get('issued') and 500 <= r.get('issue_status', 0) <= 599
         if not good: chk.counterexample(f'selector with JSON length {L}: native {r}', c, True, role='token')
         if len(chk.samples) < 4: chk.samples.append({'case': c, 'native': r})
+    long_token_transport(chk)
     for c in ({'op': 'wide_token'}, {'op': 'token_transport', 'names': ['a~', 'ab~', 'abc~', 'b>', 'bb>', '?', '??', 'zz'], 'limit': 1},
               {'op': 'token_transport', 'names': ['a~', 'ab~', 'abc~', 'b>', 'bb>', '?', '??', 'zz'], 'limit': 3}):
         r = replay([c])[0]
